@@ -121,3 +121,13 @@ Lemma fallback_preserves e t v bs : wf_ty t = true -> wf true v = true -> confor
 Proof.
   intros Ht Hwf Hc Hs. destruct (cycle_top e t v bs Ht Hwf Hc Hs) as (x & bs' & A & T & B & _ & D). eauto 6.
 Qed.
+
+(* the emitter the code has NOW, selected by what the translator found at the emission sites *)
+Definition emit_doc_attr_current (d : list N) : list N :=
+  if (gen.DeriveConsts.DOC_ATTR_SITES_RAW =? 0)%N then emit_doc_attr_fixed d else emit_doc_attr d.
+Lemma doc_attr_current : forall d, rust_string_literal (emit_doc_attr_current d) = Some d.
+Proof.
+  intro d. unfold emit_doc_attr_current.
+  destruct doc_attr_tie as [Hraw _]. rewrite Hraw. change ((0 =? 0)%N) with true. cbv iota.
+  apply doc_attr_fixed.
+Qed.
